@@ -350,5 +350,10 @@ Proof.
   all: try (split_eqb; simpl in *; rw_pc; simpl in *;
             try (eapply ih2; eassumption); try (eapply if1; eassumption); try (eapply if2; eassumption);
             try (destruct (in_G (lp s)) eqn:EG; [specialize (ih eq_refl); congruence | reflexivity]); fail).
+  all: try (eapply ih2; congruence).
+  all: try (split_eqb; simpl in *;
+            try (eapply (if1 i0'); rewrite Heqf; simpl; congruence);
+            try (eapply (if2 i0'); rewrite Heqf; simpl; congruence);
+            try (eapply if1; eassumption); try (eapply if2; eassumption); fail).
   all: match goal with H : fp _ = ?p |- ?G => idtac "PC" p "|-" G end.
 Qed.
